@@ -31,6 +31,8 @@ struct C {
     needs_union_double_int64: bool,
     needs_async: bool,
     prim_names: HashSet<String>,
+    /// Names of all destructor functions emitted so far.
+    dtor_names: HashSet<String>,
     world: String,
     sizes: SizeAlign,
     renamed_interfaces: HashMap<WorldKey, String>,
@@ -1899,10 +1901,18 @@ impl InterfaceGenerator<'_> {
                         (false, format!("{namespace}_{encoded}_t"))
                     };
 
-                    let prev = self.r#gen.type_names.insert(ty, name);
+                    let prev = self.r#gen.type_names.insert(ty, name.clone());
                     assert!(prev.is_none());
 
                     if defined {
+                        // This type was already emitted, e.g. for the import
+                        // of an interface that is also exported, but its
+                        // destructor may have been forgotten along with the
+                        // import's types, so register it again.
+                        let dtor = format!("{}_free", name.strip_suffix("_t").unwrap());
+                        if self.r#gen.dtor_names.contains(&dtor) {
+                            self.r#gen.dtor_funcs.insert(ty, dtor);
+                        }
                         continue;
                     }
 
@@ -2030,6 +2040,7 @@ impl InterfaceGenerator<'_> {
             return;
         }
         self.src.c_helpers("}\n");
+        self.r#gen.dtor_names.insert(format!("{prefix}_free"));
         self.r#gen.dtor_funcs.insert(id, format!("{prefix}_free"));
     }
 
